@@ -259,23 +259,24 @@ deriving Repr
 
 def Hist.new (S : Nat) : Hist := ⟨5, S, []⟩
 
-def histAdd (h : Hist) (k : Nat) : W Hist := do
-  let buf := k :: h.buf                         -- push_front
-  if buf.length > h.window then do
-    popBack "HistoryBuffer::addElement: pop_back" buf.length
-    pure { h with buf := buf.dropLast }
-  else pure { h with buf := buf }
+/-- `addElement`: `push_front`, then `pop_back` when the window is exceeded -/
+def histAdd (h : Hist) (k : Nat) : W Hist :=
+  if (k :: h.buf).length > h.window then do
+    popBack "HistoryBuffer::addElement: pop_back" (k :: h.buf).length
+    pure { h with buf := (k :: h.buf).dropLast }
+  else pure { h with buf := k :: h.buf }
+
+/-- the window actually stored: clamped to [2, max_window_ = 30] -/
+def clampWindow (w : Nat) : Nat := if w < 2 then 2 else if w ≥ 30 then 30 else w
 
 /-- `HistoryBuffer::setHistorySize(window)` (after fix 382f8e9) -/
 def histSetSize (h : Hist) (w : Nat) : W Hist :=
   if w = h.window then pure h
-  else
-    let tmp := if w < 2 then 2 else if w ≥ 30 then 30 else w
-    if tmp < h.window ∧ tmp < h.buf.length then do
-      -- while (history_buffer_.size() > tmp) pop_back()
-      forRange (h.buf.length - tmp) fun j => popBack "HistoryBuffer::setHistorySize: pop_back" (h.buf.length - j)
-      pure { h with window := tmp, buf := h.buf.take tmp }
-    else pure { h with window := tmp }
+  else if clampWindow w < h.window ∧ clampWindow w < h.buf.length then do
+    -- while (history_buffer_.size() > tmp) pop_back()
+    forRange (h.buf.length - clampWindow w) fun j => popBack "HistoryBuffer::setHistorySize: pop_back" (h.buf.length - j)
+    pure { h with window := clampWindow w, buf := h.buf.take (clampWindow w) }
+  else pure { h with window := clampWindow w }
 
 /-- `HistoryBuffer::getHistoryBuffer()` -/
 def histGet (h : Hist) : W Shape := do
